@@ -250,12 +250,33 @@ type Pool struct {
 	New func() any
 	g   sync.Mutex
 	s   []any
+	reg bool
+}
+
+// every Pool that ever held an object, so that a harness can start each execution with empty pools
+// (ResetPools): what a Get returns is then a function of the schedule of this execution alone
+var (
+	poolsMu  sync.Mutex
+	allPools []*Pool
+)
+
+// ResetPools empties every pool. Call between executions, never while controlled threads run.
+func ResetPools() {
+	poolsMu.Lock()
+	defer poolsMu.Unlock()
+	for _, p := range allPools {
+		p.g.Lock()
+		clear(p.s)
+		p.s = p.s[:0]
+		p.g.Unlock()
+	}
 }
 
 func (p *Pool) Get() any {
 	p.g.Lock()
 	if n := len(p.s); n > 0 {
 		x := p.s[n-1]
+		p.s[n-1] = nil
 		p.s = p.s[:n-1]
 		p.g.Unlock()
 		return x
@@ -269,6 +290,13 @@ func (p *Pool) Get() any {
 
 func (p *Pool) Put(x any) {
 	p.g.Lock()
+	first := !p.reg
+	p.reg = true
 	p.s = append(p.s, x)
 	p.g.Unlock()
+	if first {
+		poolsMu.Lock()
+		allPools = append(allPools, p)
+		poolsMu.Unlock()
+	}
 }
